@@ -109,7 +109,7 @@ def dense_rows(m):
 
 
 # ------------------------------------------------------------------ observation of a real table
-def observe(t, probes=None):
+def observe(t, probes=None, order_rng=None):
     probes = PROBES if probes is None else probes
     obs_ids = [str(x) for x in t.ids(axis="observation")]
     samp_ids = [str(x) for x in t.ids()]
@@ -154,23 +154,34 @@ def observe(t, probes=None):
             errs.append("%s: %s" % (key, type(e).__name__))
     for k in ("data_obs", "data_samp", "cells", "iter_obs", "iter_samp", "pairwise_obs", "nonzero"):
         o[k] = []
+    # the accessors are asked in a different order at every observation: what one accessor leaves behind
+    # (layout switches, caches) must not change what a later one reports
+    plan = []
     if nonempty:
-        guard("data_obs", [], lambda: [fr(t.data(i, axis="observation")) for i in t.ids(axis="observation")])
-        guard("data_samp", [], lambda: [fr(t.data(i, axis="sample")) for i in t.ids()])
-        guard("cells", [], lambda: [[core.frac(t.get_value_by_ids(a, b)) for b in t.ids()]
-                                     for a in t.ids(axis="observation")])
-        guard("iter_obs", [], lambda: [[str(i), fr(v)] for v, i, _ in t.iter(axis="observation")])
-        guard("iter_samp", [], lambda: [[str(i), fr(v)] for v, i, _ in t.iter(axis="sample")])
-        guard("pairwise_obs", [], lambda: [[[str(a[1]), fr(a[0])], [str(b[1]), fr(b[0])]]
-                                           for a, b in t.iter_pairwise(axis="observation")])
-        guard("nonzero", [], lambda: [[str(a), str(b)] for a, b in t.nonzero()])
-    guard("sum_whole", "0", lambda: core.frac(float(t.sum())))
-    guard("sum_obs", [], lambda: fr(t.sum("observation")) if n > 0 else [])
-    guard("sum_samp", [], lambda: fr(t.sum("sample")) if m > 0 else [])
-    guard("nzc_obs", [], lambda: [int(x) for x in t.nonzero_counts("observation")] if n > 0 else [])
-    guard("nzc_samp", [], lambda: [int(x) for x in t.nonzero_counts("sample")] if m > 0 else [])
-    guard("nnz", 0, lambda: int(t.nnz))
-    guard("density", "0", lambda: core.frac(t.get_table_density()))
+        plan += [
+            ("data_obs", [], lambda: [fr(t.data(i, axis="observation")) for i in t.ids(axis="observation")]),
+            ("data_samp", [], lambda: [fr(t.data(i, axis="sample")) for i in t.ids()]),
+            ("cells", [], lambda: [[core.frac(t.get_value_by_ids(a, b)) for b in t.ids()]
+                                   for a in t.ids(axis="observation")]),
+            ("iter_obs", [], lambda: [[str(i), fr(v)] for v, i, _ in t.iter(axis="observation")]),
+            ("iter_samp", [], lambda: [[str(i), fr(v)] for v, i, _ in t.iter(axis="sample")]),
+            ("pairwise_obs", [], lambda: [[[str(a[1]), fr(a[0])], [str(b[1]), fr(b[0])]]
+                                          for a, b in t.iter_pairwise(axis="observation")]),
+            ("nonzero", [], lambda: [[str(a), str(b)] for a, b in t.nonzero()]),
+        ]
+    plan += [
+        ("sum_whole", "0", lambda: core.frac(float(t.sum()))),
+        ("sum_obs", [], lambda: fr(t.sum("observation")) if n > 0 else []),
+        ("sum_samp", [], lambda: fr(t.sum("sample")) if m > 0 else []),
+        ("nzc_obs", [], lambda: [int(x) for x in t.nonzero_counts("observation")] if n > 0 else []),
+        ("nzc_samp", [], lambda: [int(x) for x in t.nonzero_counts("sample")] if m > 0 else []),
+        ("nnz", 0, lambda: int(t.nnz)),
+        ("density", "0", lambda: core.frac(t.get_table_density())),
+    ]
+    if order_rng is not None:
+        order_rng.shuffle(plan)
+    for key, default, f in plan:
+        guard(key, default, f)
     o["accessor_errors"] = errs
     return o
 
@@ -393,7 +404,7 @@ def run_history(ctx, cap, templates, start_spec, route, names, impl_name, tags, 
     steps = []
     ev0 = [e for e in cap.events if e["kind"] == "ctor" and e["obj"] == id(t)]
     first_ops = model_ops_for(list(cap.events), t, None, False, [])
-    steps.append({"ops": first_ops, "obs": observe(t, probes), "md": md_obs(t)})
+    steps.append({"ops": first_ops, "obs": observe(t, probes, ctx.rng), "md": md_obs(t)})
     log = ["start:%s" % route]
     # earlier tables of the history stay alive (a user may still hold them): they must stay coherent too,
     # e.g. when a derived table shares their ID arrays
@@ -428,13 +439,13 @@ def run_history(ctx, cap, templates, start_spec, route, names, impl_name, tags, 
         log.append(name + ("!" + err if err else ""))
         for a in alive:
             if a is not t:
-                bystander_obs.append((len(log) - 1, observe(a, probes)))
+                bystander_obs.append((len(log) - 1, observe(a, probes, ctx.rng)))
         if ops is None:
             ctx.notes.append("no constructor event for the result of %s" % name)
             ops = []
-            steps.append({"ops": ops, "obs": observe(t, probes), "md": None, "resync": True})
+            steps.append({"ops": ops, "obs": observe(t, probes, ctx.rng), "md": None, "resync": True})
             break
-        steps.append({"ops": ops, "obs": observe(t, probes), "md": md_obs(t)})
+        steps.append({"ops": ops, "obs": observe(t, probes, ctx.rng), "md": md_obs(t)})
         if t.shape[0] == 0 or t.shape[1] == 0:
             ctx.count("history-reached-empty-table")
             break
